@@ -8,7 +8,7 @@ import os
 from ..explore import Check, Outcome
 from .. import worlds, simreads
 
-PLACEMENTS = ("none", "neutral", "pseudo", "gene", "gene+pseudo", "all")
+PLACEMENTS = ("none", "neutral", "pad", "pseudo", "gene", "gene+pseudo", "all")
 DEPTHS = (0.5, 1.5, 20)
 MODES = ("yaml", "bam", "cn")
 OUTPUTS = (None, "aldy", "vcf", "simple")
@@ -86,7 +86,14 @@ class C19(Check):
         if pl in ("pseudo", "gene+pseudo", "all") and spec.pseudo:
             for c in range(2):
                 reads += sim.pseudo_copy(rl, depth, f"p{c}")
-        if pl in ("neutral", "gene", "pseudo", "all"):
+        if pl == "pad":
+            # reads stacked in the 500 bases before the locus (inside the padded fetch window, outside the locus)
+            wide = gene.get_wide_region()
+            G = sim.G
+            for k in range(int(20 * 4)):
+                st_ = wide.start - 430 + (k % 20) * 10
+                reads.append((f"pad{k}", st_, G[st_:st_ + 100], "100M"))
+        if pl in ("neutral", "pad", "gene", "pseudo", "all"):
             for c in range(2):
                 reads += sim.neutral(rl, max(depth, 0.5), f"n{c}")
         # a few reads far away so that the file is never empty
